@@ -187,7 +187,9 @@ class SpecGen:
 def ty_expr(node):
     k = node["k"]
     if k == "leaf":
-        return {"int": "int", "str": "str", "bool": "bool", "float": "float", "optInt": "Optional[int]", "listInt": "List[int]"}[node["ty"]]
+        return {"int": "int", "str": "str", "bool": "bool", "float": "float", "optInt": "Optional[int]", "listInt": "List[int]",
+                "optListInt": "Optional[List[int]]", "optDictStrInt": "Optional[Dict[str, int]]", "optTupleIntStr": "Optional[Tuple[int, str]]",
+                "optLitAB": "Optional[Literal['a', 'b']]"}[node["ty"]]
     if k == "group":
         return node["cls"]
     if k == "class":
@@ -248,7 +250,9 @@ def default_code(node, in_dataclass):
         if node["req"]:
             return ""
         d = node["def"]
-        if isinstance(d, list):
+        if isinstance(d, (list, dict)):
+            if node["ty"] == "optTupleIntStr":
+                d = tuple(d)
             return " = field(default_factory=lambda: %r)" % (d,) if in_dataclass else " = %r" % (d,)
         return " = %r" % (d,)
     if k == "group":
@@ -263,7 +267,7 @@ def write_module(fields):
     emit_classes(fields, out)
     _COUNTER[0] += 1
     modname = "c06m_%d_%d" % (os.getpid(), _COUNTER[0])
-    src = "import abc\nfrom dataclasses import dataclass, field\nfrom typing import List, Optional\n\n\n" + "\n\n\n".join(out) + "\n"
+    src = "import abc\nfrom dataclasses import dataclass, field\nfrom typing import Dict, List, Literal, Optional, Tuple\n\n\n" + "\n\n\n".join(out) + "\n"
     with open(os.path.join(gen_dir(), modname + ".py"), "w") as f:
         f.write(src)
     importlib.invalidate_caches()
@@ -272,11 +276,13 @@ def write_module(fields):
 
 # ---------------------------------------------------------------- the real parser
 def py_type(node, mod):
-    from typing import List, Optional
+    from typing import Dict, List, Literal, Optional, Tuple
 
     k = node["k"]
     if k == "leaf":
-        return {"int": int, "str": str, "bool": bool, "float": float, "optInt": Optional[int], "listInt": List[int]}[node["ty"]]
+        return {"int": int, "str": str, "bool": bool, "float": float, "optInt": Optional[int], "listInt": List[int],
+                "optListInt": Optional[List[int]], "optDictStrInt": Optional[Dict[str, int]], "optTupleIntStr": Optional[Tuple[int, str]],
+                "optLitAB": Optional[Literal["a", "b"]]}[node["ty"]]
     if k == "group":
         return getattr(mod, node["cls"])
     if k == "class":
@@ -1198,7 +1204,7 @@ def table_of_spec(fields, prefix="", dotted=""):
         k = node["k"]
         dest = dotted + name
         if k == "leaf":
-            opts = ["--" + dest] + (["--" + dest + "+"] if node["ty"] == "listInt" else [])
+            opts = ["--" + dest] + (["--" + dest + "+"] if node["ty"] in ("listInt", "optListInt") else [])
             out.append([prefix + dest, sorted(opts), "arg", bool(node["req"])])
         elif k == "class":
             out.append([prefix + dest, ["--" + dest], "arg", bool(node["req"])])
